@@ -455,7 +455,10 @@ class ndarray:
         dt = dt if _py_isinstance(dt, dtype) else dtype(dt)
         e = self.snapshot()
         if not dt.symbolic and dt.code == "bool":
-            return ndarray.from_elem(lambda idx: _to_bool(e(idx)), self._shape, dt)
+            out = ndarray.from_elem(lambda idx: _to_bool(e(idx)), self._shape, dt)
+            if ASTYPE_BOOL_LOG[0] is not None:
+                ASTYPE_BOOL_LOG[0].append(out)
+            return out
         if not dt.symbolic and not dt.is_float() and (self.dtype.symbolic or self.dtype.is_float()):
             return ndarray.from_elem(lambda idx: _trunc(e(idx)), self._shape, dt)
         if not self.dtype.symbolic and self.dtype.code == "bool":
@@ -795,6 +798,8 @@ def _norm_bound(b, n):
     if _py_isinstance(cb, int) and cb == 0:
         return 0
     b = SV.lift(b)
+    if core.entails((b >= 0) & (b <= n)):
+        return b  # in range under the path condition: no wrap, no clipping
     b = ite(b < 0, b + n, b) if not (_py_isinstance(cb, int) and cb >= 0) else b
     return ite(b < 0, 0, ite(b > n, n, b))
 
@@ -805,10 +810,13 @@ def _ceil_div_len(d, step):
         return _py_max(0, -(-cd // step))
     d = SV.lift(d)
     if step == 1:
+        if core.entails(d >= 0):
+            return SV(z3.simplify(d.t), "i")
         return ite(d < 0, 0, d)
     return ite(d <= 0, 0, (d + (step - 1)) // step)
 
 
+ASTYPE_BOOL_LOG = [None]  # contracts may observe the selection masks a function builds with .astype(bool)
 WRITE_HOOK = [None]  # race analysis: called with (buffer, inverse map) for every array write
 BOUNDS_HOOK = [None]  # numba mode: a contract collects in-bounds obligations instead of IndexError
 
@@ -1035,7 +1043,9 @@ def _select(items, i):
     """items[i] for a possibly symbolic i"""
     ci = concrete(i)
     if _py_isinstance(ci, int):
-        return items[ci]
+        # total: an out-of-range index only occurs under a guard that is false (both sides of an
+        # if-then-else over array regions are built eagerly)
+        return items[_py_min(_py_max(ci, 0), _py_len(items) - 1)]
     out = items[-1]
     for k in _py_range(_py_len(items) - 2, -1, -1):
         out = _ite_val(SV.lift(i) == k, items[k], out)
@@ -1673,6 +1683,10 @@ def _plain(v):
 
 @array_function(_first)
 def sum(a, axis=None, out=None):
+    if _py_isinstance(a, ndarray) and axis is None and a.ndim == 1 and not a.dtype.symbolic and a.dtype.code == "bool":
+        # the sum of a boolean array is the number of True entries (the count of its row selection)
+        cnt, _ = _rowmap(a)
+        return _np_scalar(SV.lift(cnt), _dtype_cls("int64"))
     if _py_isinstance(a, (list, tuple)):
         if builtins.all(_is_scalar(x) for x in a):
             t = 0
